@@ -143,38 +143,48 @@ char *getenv(const char *name)
     return (char *)env_getenv_value;
 }
 
-/* ---- rwlock monitor (sequential harnesses) ---- */
-#ifdef VCBMC
+/* ---- rwlock model: monitor in sequential harnesses, reader/writer semantics for the C18 scheduler ----
+ * Also compiled into the native replayer (the repo sources are built with -Dpthread_rwlock_*=env_rwlock_*),
+ * so that a lock-discipline failure replays natively. */
 #include <pthread.h>
-static int env_lock_writer, env_lock_readers;
-int pthread_rwlock_wrlock(pthread_rwlock_t *l)
+#ifdef VCBMC
+#define LOCK_ASSERT(c, msg) __CPROVER_assert((c), "VP:" msg)
+#define LOCK_ASSUME(c) __CPROVER_assume(c)
+#define env_rwlock_wrlock pthread_rwlock_wrlock
+#define env_rwlock_rdlock pthread_rwlock_rdlock
+#define env_rwlock_unlock pthread_rwlock_unlock
+#else
+#define LOCK_ASSERT(c, msg) do { if (!(c)) vh_fail("VP:" msg); } while (0)
+#define LOCK_ASSUME(c) do { if (!(c)) vh_assume_false(#c); } while (0)
+#endif
+int env_lock_writer, env_lock_readers;   /* visible to the C18 scheduler (lock-discipline monitor) */
+int env_rwlock_wrlock(pthread_rwlock_t *l)
 {
     (void)l;
     /* C18 scheduler: a taker that would have to wait makes the schedule infeasible; sequential harnesses: it is a bug */
-    if (env_lock_blocking) __CPROVER_assume(!env_lock_writer && env_lock_readers == 0);
-    __CPROVER_assert(!env_lock_writer && env_lock_readers == 0, "VP:rwlock taken for writing while already held");
+    if (env_lock_blocking) LOCK_ASSUME(!env_lock_writer && env_lock_readers == 0);
+    LOCK_ASSERT(!env_lock_writer && env_lock_readers == 0, "rwlock taken for writing while already held");
     env_lock_writer = 1;
     env_lock_depth++;
     return 0;
 }
-int pthread_rwlock_rdlock(pthread_rwlock_t *l)
+int env_rwlock_rdlock(pthread_rwlock_t *l)
 {
     (void)l;
-    if (env_lock_blocking) __CPROVER_assume(!env_lock_writer);
-    __CPROVER_assert(!env_lock_writer, "VP:rwlock taken for reading while held by a writer");
+    if (env_lock_blocking) LOCK_ASSUME(!env_lock_writer);
+    LOCK_ASSERT(!env_lock_writer, "rwlock taken for reading while held by a writer");
     env_lock_readers++;        /* read locks are shared */
     env_lock_depth++;
     return 0;
 }
-int pthread_rwlock_unlock(pthread_rwlock_t *l)
+int env_rwlock_unlock(pthread_rwlock_t *l)
 {
     (void)l;
-    __CPROVER_assert(env_lock_depth >= 1, "VP:rwlock released while not held");
+    LOCK_ASSERT(env_lock_depth >= 1, "rwlock released while not held");
     if (env_lock_writer) env_lock_writer = 0; else env_lock_readers--;
     env_lock_depth--;
     return 0;
 }
-#endif
 
 /* ---- back ends that only forward to absent third-party libraries ---- */
 static struct ec_backend_op_stubs env_inert_ops;
